@@ -198,7 +198,10 @@ func variants(root *node, fault string, s site) []string {
 		}
 		return []string{""}
 	case "num":
-		return []string{"-1", "1e400", "99999999999999999999", "x", "1.5", "-0", "1e-400", "9223372036854775808", "-9223372036854775809", "0", "1e308", "0.1e1"}
+		// "yaml:<YAML spelling>=<JSON spelling>": number spellings that only YAML has (no leading zero,
+		// explicit plus sign, bare trailing point); the JSON spelling writes the same number its own way
+		return []string{"-1", "1e400", "99999999999999999999", "x", "1.5", "-0", "1e-400", "9223372036854775808", "-9223372036854775809", "0", "1e308", "0.1e1",
+			"yaml:.5=0.5", "yaml:+5=5", "yaml:5.=5", "yaml:+.5e1=5", "yaml:-.25=-0.25"}
 	case "deep":
 		return deepVariants
 	}
@@ -548,10 +551,13 @@ func apply(base *node, fault, arg string, s site) (a applied, ok bool) {
 		var nn *node
 		if arg == "x" {
 			nn = str("x")
+		} else if ys, js, ok := strings.Cut(strings.TrimPrefix(arg, "yaml:"), "="); ok && strings.HasPrefix(arg, "yaml:") {
+			nn = num(js)
+			nn.YS = ys
 		} else {
 			nn = num(arg)
 		}
-		if nn.K == n.K && nn.S == n.S {
+		if nn.K == n.K && nn.S == n.S && nn.YS == "" {
 			return a, false
 		}
 		set(nn)
